@@ -6,9 +6,10 @@ package p9p
 import "context"
 
 type vSpyCall struct {
-	op  string
-	fid Fid
-	new Fid
+	op    string
+	fid   Fid
+	new   Fid
+	names []string // walk only
 }
 
 type vSpy struct {
@@ -16,7 +17,7 @@ type vSpy struct {
 	calls []vSpyCall
 }
 
-func (s *vSpy) rec(op string, fid, nf Fid) { s.calls = append(s.calls, vSpyCall{op, fid, nf}) }
+func (s *vSpy) rec(op string, fid, nf Fid) { s.calls = append(s.calls, vSpyCall{op: op, fid: fid, new: nf}) }
 func (s *vSpy) last() vSpyCall {
 	if len(s.calls) == 0 {
 		return vSpyCall{}
@@ -42,6 +43,7 @@ func (s *vSpy) Remove(ctx context.Context, fid Fid) error {
 }
 func (s *vSpy) Walk(ctx context.Context, fid Fid, newfid Fid, names ...string) ([]Qid, error) {
 	s.rec("walk", fid, newfid)
+	s.calls[len(s.calls)-1].names = append([]string(nil), names...)
 	return s.inner.Walk(ctx, fid, newfid, names...)
 }
 func (s *vSpy) Read(ctx context.Context, fid Fid, p []byte, offset int64) (int, error) {
@@ -137,13 +139,17 @@ func vC20(steps, maxNames, maxLen int, stubFails bool) {
 				names = ndNames(maxNames, maxLen)
 			}
 			nents := len(fs.ents)
+			asked := append([]string(nil), names...)
 			qids, ne, err := ent.Walk(vBG, names...)
 			after := vBoundFids(sess)
 			completed := after > before
 			if len(spy.calls) > ncalls {
 				c := spy.last()
 				vAssert(c.op == "walk" && c.fid == ent.fid, "C20: walk issues Walk on the entry's own fid")
+				want, _ := vRefNormalize(asked)
+				vAssert(vStrsEq(c.names, want), "C20: walk issues the corresponding session call (the caller's names, normalised)")
 			}
+			vAssert(vStrsEq(names, asked), "C20: walk leaves the caller's name list as it was")
 			if completed {
 				vAssert(err == nil, "C20: a walk that the server completed is reported as success")
 				if err == nil {
